@@ -338,78 +338,16 @@ becomes `v`; the includer's table is untouched: a definition is visible only in 
 theorem isolation_define {s s' : State} {l : Table} {n : Bytes} {v : Int} {tag : Nat} {r : Option Level}
     (hl : s.locals = some l) (h : stmt s (.const n v tag) = .ok (s', r) ∨ stmt s (.label n v tag) = .ok (s', r)) :
     s'.globals = s.globals ∧
-    ∃ l', s'.locals = some l' ∧ ∀ m, l'.find m = l.find m ∨ (m = n ∧ l'.find m = some (some v)) := by
-  have key : ∀ {s1 : State} {res : Except CErr Bool}, insertConstant s n v .loc = .ok (s1, res) →
-      s1.globals = s.globals ∧
-      ∃ l', s1.locals = some l' ∧ ∀ m, l'.find m = l.find m ∨ (m = n ∧ l'.find m = some (some v)) := by
-    intro s1 res hi
-    obtain ⟨hg, hc⟩ := insertConstant_loc_char hi
-    refine ⟨hg, ?_⟩
-    rcases hc with hc | ⟨l0, hl0, _, hc⟩
-    · exact ⟨l, by rw [hc, hl], fun m => .inl rfl⟩
-    · rw [hl] at hl0; cases hl0
-      exact ⟨_, hc, set_change l n (some v)⟩
-  rcases h with h | h
-  · simp only [stmt] at h
-    unfold doConst at h
-    split at h
-    · cases h
-    all_goals (rename_i hi; cases h; have hk := key hi; exact hk)
-  · simp only [stmt] at h
-    unfold doLabel at h
-    split at h
-    · cases h
-    all_goals (rename_i hi; cases h; have hk := key hi; exact hk)
+    ∃ l', s'.locals = some l' ∧ ∀ m, l'.find m = l.find m ∨ (m = n ∧ l'.find m = some (some v)) :=
+  isolation_define_lem hl h
 
 /-- C14.isolation (downwards only by `.import`)  `.import n` changes nothing but the entry `n` of the file's own table,
 which becomes the includer's entry for `n` (same value, or still unvalued); the includer's table is untouched. -/
 theorem isolation_import {s s' : State} {l : Table} {n : Bytes} {tag : Nat} {r : Option Level}
     (hl : s.locals = some l) (h : stmt s (.import n tag) = .ok (s', r)) :
     s'.globals = s.globals ∧
-    ∃ l', s'.locals = some l' ∧ ∀ m, l'.find m = l.find m ∨ (m = n ∧ l'.find m = s.globals.find n) := by
-  simp only [stmt] at h
-  unfold doImport at h
-  split at h
-  · cases h
-  · cases h; exact ⟨rfl, l, hl, fun m => .inl rfl⟩
-  · rename_i hg
-    have hgf : s.globals.find n = some none := by
-      simp only [getConstant] at hg
-      exact get_deferred (Except.ok.inj hg)
-    have key : ∀ {s1 : State} {res : Except CErr Unit}, deferConstant s n .loc = .ok (s1, res) →
-        s1.globals = s.globals ∧
-        ∃ l', s1.locals = some l' ∧ ∀ m, l'.find m = l.find m ∨ (m = n ∧ l'.find m = s.globals.find n) := by
-      intro s1 res hd
-      obtain ⟨hgl, hc⟩ := deferConstant_loc_char hd
-      refine ⟨hgl, ?_⟩
-      rcases hc with hc | ⟨l0, hl0, _, hc⟩
-      · exact ⟨l, by rw [hc, hl], fun m => .inl rfl⟩
-      · rw [hl] at hl0; cases hl0
-        exact ⟨_, hc, fun m => by rw [hgf]; exact set_change l n none m⟩
-    split at h
-    · cases h
-    · rename_i hd; cases h; have hk := key hd; exact hk
-    · rename_i hd; cases h; have hk := key hd; exact hk
-    · cases h
-  · rename_i v hg
-    have hgf : s.globals.find n = some (some v) := by
-      simp only [getConstant] at hg
-      exact get_found (Except.ok.inj hg)
-    have key : ∀ {s1 : State} {res : Except CErr Bool}, insertConstant s n v .loc = .ok (s1, res) →
-        s1.globals = s.globals ∧
-        ∃ l', s1.locals = some l' ∧ ∀ m, l'.find m = l.find m ∨ (m = n ∧ l'.find m = s.globals.find n) := by
-      intro s1 res hi
-      obtain ⟨hgl, hc⟩ := insertConstant_loc_char hi
-      refine ⟨hgl, ?_⟩
-      rcases hc with hc | ⟨l0, hl0, _, hc⟩
-      · exact ⟨l, by rw [hc, hl], fun m => .inl rfl⟩
-      · rw [hl] at hl0; cases hl0
-        exact ⟨_, hc, fun m => by rw [hgf]; exact set_change l n (some v) m⟩
-    split at h
-    · cases h
-    · rename_i hi; cases h; have hk := key hi; exact hk
-    · rename_i hi; cases h; have hk := key hi; exact hk
-    · cases h
+    ∃ l', s'.locals = some l' ∧ ∀ m, l'.find m = l.find m ∨ (m = n ∧ l'.find m = s.globals.find n) :=
+  isolation_import_lem hl h
 
 /-- C14.isolation (uses read the file's own table)  `.du32 n` never changes a table; and while a file is open its
 immediate evaluation looks `n` up in that file's table only: a valued entry in range is written at once. -/
@@ -543,6 +481,85 @@ theorem frame_body {b : Body} (hw : b.wf) {t t' : State} {C G : Table} (hi : Inv
   subst hG
   exact ⟨C', hC', hle, hu, br.frames, br.depth, br.gtasks⟩
 
+/-! ## isolation — whole runs: where a value in a file's table can come from
+
+`Up n v b` (`Lemmas/ScopeRun.lean`): a chain of `.export n`/`.global n` edges leads from the file with body `b` down through
+files it includes to a file whose own body defines `n = v` (`.const`/label) — length 0 if `b` defines it itself.
+`Body.imports n b`: the file itself has an `.import n`.  `visible s`: the table an included file sees as its includer's.
+`Reach s0 ctx s`: the files of `ctx` (innermost first, each with the part of its body run so far) are open, entered one
+inside the other from `s0`.  `Lic n v G0 ctx`: the chain condition, by recursion on `ctx`: an `Up` chain starts in the
+innermost file's body so far, or that file has `.import n` and `Lic` holds for its includer (at the time of entry);
+outside any file: the global table had `n = v` at the start. -/
+
+/-- C14.isolation (upwards, whole include)  After a complete `.include` every valued entry `(m, v)` of the includer's
+table was there before, or the included file itself exports / declares global `m` and an `Up` chain of export/global
+edges leads from it down to a file that defines `m = v`: values travel upwards only along such chains. -/
+theorem isolation_include {b : Body} (hw : b.wf) {s mid s' : State} {tag : Nat} {L : Table}
+    (hi : Inv s) (hm : s.mode = .running) (hf : s.frames ≠ []) (hL : s.locals = some L)
+    (h1 : run s (.enter tag :: b.flatten) = .ok mid) (h2 : step mid .exit = .ok s') :
+    ∃ L', s'.locals = some L' ∧ ∀ m v, L'.find m = some (some v) →
+      L.find m = some (some v) ∨ (m ∈ b.names ∧ Up m v b) := by
+  obtain ⟨C, L', hC, hL', hu, _⟩ := frame_include hw hi hm hf hL h1 h2
+  refine ⟨L', hL', fun m v hv => ?_⟩
+  rcases hu m with e | ⟨hn, hun, hc⟩
+  · rw [e] at hv; exact .inl hv
+  · rcases hc with ⟨v', hc1, hc2⟩ | ⟨_, hc2⟩
+    · rw [hc2] at hv; cases hv
+      rcases file_prov b hw hi hm h1 hC m v hc1 with ⟨_, hg⟩ | hup
+      · have : visible s = L := by simp [visible, hL]
+        rw [this] at hg; exact absurd hg (hun v)
+      · exact .inr ⟨hn, hup⟩
+    · rw [hc2] at hv; cases hv
+
+/-- C14.isolation (upwards, the root file)  The same for the global table after a root file. -/
+theorem isolation_include_root {b : Body} (hw : b.wf) {s mid s' : State} {tag : Nat}
+    (hi : Inv s) (hm : s.mode = .running) (hf : s.frames = [])
+    (h1 : run s (.enter tag :: b.flatten) = .ok mid) (h2 : step mid .exit = .ok s') :
+    ∀ m v, s'.globals.find m = some (some v) →
+      s.globals.find m = some (some v) ∨ (m ∈ b.names ∧ Up m v b) := by
+  obtain ⟨C, hC, hl', _, _, _, hu, _⟩ := frame_include_root hw hi hm hf h1 h2
+  intro m v hv
+  have hl : s.locals = none := by
+    cases hl : s.locals with
+    | none => rfl
+    | some l => have := hi.opn.locals.1 (by simp [hl]); exact absurd hf this
+  rcases hu m with e | ⟨hn, hun, hc⟩
+  · rw [e] at hv; exact .inl hv
+  · rcases hc with ⟨v', hc1, hc2⟩ | ⟨_, hc2⟩
+    · rw [hc2] at hv; cases hv
+      rcases file_prov b hw hi hm h1 hC m v hc1 with ⟨_, hg⟩ | hup
+      · have : visible s = s.globals := by simp [visible, hl]
+        rw [this] at hg; exact absurd hg (hun v)
+      · exact .inr ⟨hn, hup⟩
+    · rw [hc2] at hv; cases hv
+
+/-- C14.isolation (a file's own table, whole body)  At any point of a file (after the part `b` of its body, with nested
+includes), every valued entry `(m, v)` of its table is imported — the file has `.import m` and its includer had `m = v`
+when the file was entered — or is the end of an `Up` chain starting in the file: a file sees only what it defines, what it
+imports, and what the files it includes send up. -/
+theorem isolation_file {b : Body} (hw : b.wf) {s mid : State} {tag : Nat} {C : Table} (hi : Inv s)
+    (hm : s.mode = .running) (h1 : run s (.enter tag :: b.flatten) = .ok mid) (hC : mid.locals = some C)
+    (m : Bytes) (v : Int) (hv : C.find m = some (some v)) :
+    (b.imports m ∧ (visible s).find m = some (some v)) ∨ Up m v b :=
+  file_prov b hw hi hm h1 hC m v hv
+
+/-- C14.isolation (provenance, whole run)  At any position of a project — files `ctx` open one inside the other, each
+with the part of its body run so far, started from a state `s0` outside any file — a name has a value in the current
+file's table only via a chain of `.import` edges (upwards through the open includers, each at the time its file was
+entered) followed by a chain of `.export`/`.global` edges (downwards through completed includes) ending at a definition
+of that name with that value, or via `.import` edges all the way up to an entry of the initial global table.  So a name
+defined only in file `F` resolves in a file `G ≠ F` only via such a chain from `G` to `F`. -/
+theorem isolation_chain {s0 s : State} {ctx : List (Nat × Body)} (h0 : Inv s0) (hf0 : s0.frames = [])
+    (hw : ∀ p ∈ ctx, p.2.wf) (hr : Reach s0 ctx s) (n : Bytes) (v : Int)
+    (hv : (visible s).find n = some (some v)) : Lic n v s0.globals ctx :=
+  (reach_lic h0 hf0 n v ctx hw hr).2 hv
+
+/-- … from `Context::new()` the global table is empty: the chain always ends at a definition -/
+theorem isolation_chain_init {s : State} {ctx : List (Nat × Body)} (hw : ∀ p ∈ ctx, p.2.wf)
+    (hr : Reach init ctx s) (n : Bytes) (v : Int) (hv : (visible s).find n = some (some v)) :
+    Lic n v [] ctx :=
+  isolation_chain inv_init rfl hw hr n v hv
+
 /-! ## non-vacuity -/
 
 /-- the names of the register file are reserved, case-insensitively; ordinary names are not -/
@@ -606,5 +623,31 @@ example : (run init ([.enter 0, .global x 1, .enter 1] ++ child.flatten ++ [.exi
       some (some [(x, some 7), (z, none)]) ∧
     (run init ([.enter 0, .global x 1, .enter 1] ++ child.flatten ++ [.exit])).toOption.map (·.globals) =
       some [(x, none)] := by decide
+
+/-- provenance is not vacuous: the root defines `x`, includes a file that defines and exports `y`; a second included
+file (still open) imports `y`: its table has `y = 5`, licensed by the chain import ↑ root ↓ export ↓ definition -/
+private def rootPre : Body :=
+  .stmt (.const x 7 1) (.incl 2 (.stmt (.const y 5 3) (.stmt (.export y 4) .nil)) .nil)
+private def childPre : Body := .stmt (.import y 6) .nil
+private def st (ops : List Op) : State :=
+  match run init ops with
+  | .ok s => s
+  | .error _ => init
+
+example : Reach init [(5, childPre), (0, rootPre)]
+      (st (.enter 0 :: rootPre.flatten ++ .enter 5 :: childPre.flatten)) ∧
+    (visible (st (.enter 0 :: rootPre.flatten ++ .enter 5 :: childPre.flatten))).find y = some (some 5) ∧
+    Lic y 5 [] [(5, childPre), (0, rootPre)] ∧ ¬ Lic x 7 [] [(5, childPre), (0, rootPre)] := by
+  refine ⟨⟨st (.enter 0 :: rootPre.flatten), ⟨init, rfl, rfl, by rfl⟩, by rfl, by rfl⟩, by decide, ?_, ?_⟩
+  · exact .inr ⟨.inl rfl, .inl (.later (.child (by simp [Body.names, Op.names]) (.here ⟨rfl, rfl⟩)))⟩
+  · intro h
+    rcases h with h | ⟨h, _⟩
+    · cases h with
+      | here h => exact h
+      | later h => cases h
+    · rcases h with h | h
+      · have h : y = x := h
+        exact absurd h (by decide)
+      · exact h
 
 end Trion.Scope
